@@ -101,7 +101,7 @@ Fixpoint apply_datum (c : codec) (dest : gval) (d : datum) {struct c} : option g
       | _ => None
       end
   | CTimeString => match d with DString v => time_string_apply dest v | _ => None end
-  | CTimeLong mult => match datum_int d with Some z => Some (VTime (time_of_ns (wrap64 (z * mult)))) | None => None end
+  | CTimeLong mult => match datum_int d with Some z => Some (VTime (time_of_units mult z)) | None => None end
   | CDate => match datum_int d with
              | Some z => if int_fits 32 z then Some (VTime (TV (86400 * z) 0 0)) else None
              | None => None end
